@@ -2,6 +2,7 @@ CFG = dict(
     n={'quick': 4000, 'thorough': 60000},
     oracle=True,
     reference=True,
+    translate=['mldsa'],
     corr='gen/MldsaScalar.v kernels, MldsaPoly (ntt/intt, bit packing, hint packing, sampling) and Mldsa.keyGenInternal/sign/verify/tinkSign/tinkVerify/signPrehash (model over the stdlib SHAKE oracle) vs internal/signature/mldsa (kernels through verif_export.go), signature/mldsa through keyset handles and signprehash/mldsa, ML-DSA-44/65/87',
     coq_targets=['proofs/MldsaScalarProofs2.vo', 'proofs/MldsaTableProofs.vo', 'props/C10.vo'],
 )
